@@ -20,4 +20,5 @@ Extraction "../ocaml/gen/ModelC04.ml"
   xts_finish xts_enc_spec xts_dec_spec xts_units_spec xts_encrypt_raw xts_decrypt_raw segs tweak_incr
   cbc_mac_init cbc_mac_update cbc_mac_finish cbc_mac_spec
   aes_cbc_encrypt aes_cbc_decrypt aes_cbc_padding_encrypt aes_cbc_padding_decrypt aes_ctr_encrypt
-  aes_set_encrypt_key aes_set_decrypt_key aes_encrypt_rk aes_decrypt_rk.
+  aes_set_encrypt_key aes_set_decrypt_key aes_encrypt_rk aes_decrypt_rk aes_encrypt_block aes_decrypt_block
+  bc_aes128_set_encrypt_key bc_aes128_set_decrypt_key bc_aes128_encrypt bc_aes128_decrypt le_to_N.
